@@ -61,7 +61,29 @@ def run(ctx):
                    "12 Jan 2015, Mon", "Monday 12 noon", "12 Jan 2015 at noon", "Posted on: 12 Jan 2015", "on: 5 March 2015", "5 March 2015 on",
                    "Sat, 3 Oct 2015 12:00 pm", "3 o'clock pm 5 March 2015", "5 Mar. 2015", "Mar. 5, 2015 10 a.m.", "5 March 2015 AD",
                    "10:30 PM", "5 march 2015 10pm", "yesterday at noon", "2 hours ago.", "5 March 2015."]
+        # number shapes of every parser (epoch numbers with and without a fraction, compact digit runs, decimal counts,
+        # clock times with fractions and unusual separators) and generated numeric dates
+        english += ["1570308760.263", "1570308760.5", "1570308760,263", "1570308760263.5", "1500000000.000001", "1570308760.", "1570308760 .263",
+                    "10:30:15,123", "10:30:15.5", "7.05pm", "12/31/99 23:59:59.5", "1/2/2015 3:04:05.678901", "in 1,5 hours", "1,5 hours ago", "2015.03.05 10.30.15",
+                    "5/3/15 10h30", "2015-3-5", "5-3-2015 7:5", "0:0:0 1.1.2001", "24.12.2015 00:00:00.000", "31/12/1999 23:59", "99-12-31", "2015/03/05 - 10:30"]
+        for _ in range(20 if ctx.quick() else 300):
+            sep = rng.choice(["/", ".", "-", " "])
+            d_, m_, y_ = rng.randint(1, 28), rng.randint(1, 12), rng.choice([2015, 1999, 99, 15, 2001, 1])
+            body = sep.join(rng.choice([["%d", "%d", "%d"], ["%02d", "%02d", "%d"], ["%02d", "%02d", "%04d"]])) % (d_, m_, y_)
+            if rng.random() < 0.6:
+                body += " %d:%02d" % (rng.randint(0, 23), rng.randint(0, 59))
+                if rng.random() < 0.5:
+                    body += ":%02d" % rng.randint(0, 59)
+                    if rng.random() < 0.5:
+                        body += rng.choice([".", ","]) + "".join(rng.choice("0123456789") for _ in range(rng.randint(1, 6)))
+            english.append(body)
         strings = [(s, ["en"]) for s in english] + [(s, None) for s in english[:8]]
+        PARSER_SETS = [["timestamp", "negative-timestamp", "relative-time", "custom-formats", "absolute-time"], ["no-spaces-time", "absolute-time"],
+                       ["timestamp", "no-spaces-time"]]
+        special = []
+        for s_ in ["-1500000000", "-1500000000123", "-1570308760.263", "20150305", "201503051030", "150305", "05032015", "1030", "20150305103015",
+                   "1570308760", "1570308760263"]:
+            special.append((s_, ["en"], rng.choice(PARSER_SETS)))
         strings += [("il y a 2 heures environ", ["fr"]), ("12 Ion 2015", ["cy"]), ("5 \u0444\u0435\u0432\u0440\u0430\u043b\u044f 2015 \u0433.", ["ru"]),
                     ("13.11.2015. u 10:30", ["hr"]), ("12 \u044f\u043d\u0432\u0430\u0440\u044f 2015, \u0432 10:30", ["ru"]), ("le 5 mars 2015 \u00e0 10h30", ["fr"]),
                     ("5. M\u00e4rz 2015 um 10:30 Uhr", ["de"]), ("vor 2 Tagen", ["de"]), ("hace 2 d\u00edas", ["es"])]
@@ -82,6 +104,11 @@ def run(ctx):
                 for b in bl:
                     variants.append(("digits", "".join(b[int(ch)] if ch in "0123456789" else ch for ch in s)))
             cases.append({"s": s, "variants": variants, "kw": {"languages": langs} if langs else {}, "settings": {"RELATIVE_BASE": BASE}})
+        for s, langs, parsers in special:
+            variants = ws_variants(s)
+            for b in blocks if not ctx.quick() else rng.sample(blocks, 4) + [b for b in blocks if b[0] in "٠۰０༠"]:
+                variants.append(("digits", "".join(b[int(ch)] if ch in "0123456789" else ch for ch in s)))
+            cases.append({"s": s, "variants": variants, "kw": {"languages": langs}, "settings": {"RELATIVE_BASE": BASE, "PARSERS": parsers}})
     results = core.run_cases(ctx, "harness.lib", "call_c18", cases, chunk=10)
     records, index = [], []
     for c, r in zip(cases, results):
